@@ -242,7 +242,10 @@ func genNodeSpec(t *rapid.T, slot uint64, randao byte) NodeSpec {
 }
 
 func genSlot(t *rapid.T) uint64 {
-	return rapid.SampledFrom([]uint64{1, 2, 31, 32, 33, 1000, 1 << 32, 1<<63 - 1}).Draw(t, "slot")
+	// The slot of a proposal request is vouch's own: the controller only schedules duties inside the
+	// epoch its clock is in, so it stays below 2^63 (util.SlotToInt64 deliberately panics beyond);
+	// slot 0 is refused by the client library's Proposal call itself.
+	return rapid.SampledFrom([]uint64{1, 2, 31, 32, 33, 1000, 1<<31 - 1, 1 << 31, 1<<32 - 1, 1 << 32, 1<<32 + 1, 1<<62 + 1, 1<<63 - 2, 1<<63 - 1}).Draw(t, "slot")
 }
 
 func genBestCase(t *rapid.T) Case {
